@@ -144,6 +144,9 @@ async fn victim(s: S, work: Work, spawn_kind: usize) -> turmoil::Result {
             if inc == 1 {
                 // only the first incarnation joins the group
                 let _ = a.join_multicast_v4("239.1.1.1".parse().unwrap(), "0.0.0.0".parse().unwrap());
+                // a second group is joined and left again: the socket stays a member of the first
+                let _ = a.join_multicast_v4("239.1.1.2".parse().unwrap(), "0.0.0.0".parse().unwrap());
+                let _ = a.leave_multicast_v4("239.1.1.2".parse().unwrap(), "0.0.0.0".parse().unwrap());
             }
             let _b = UdpSocket::bind(("0.0.0.0", 10)).await;
             let _g = Guard::new(&s);
@@ -351,6 +354,11 @@ async fn put(st: &mut TcpStream, b: u8, readiness: bool) -> std::io::Result<()> 
     }
 }
 
+thread_local! {
+    /// the peers look at the end of their stream with peek() before they read it
+    static PEEK_FIRST: std::cell::Cell<bool> = const { std::cell::Cell::new(false) };
+}
+
 async fn tcp_peer(s: S, name: &'static str, start_ms: u64, tag: u8, slow_reader: bool, readiness: bool) -> turmoil::Result {
     tokio::time::sleep(Duration::from_millis(start_ms)).await;
     let mut round = 0u8;
@@ -414,9 +422,13 @@ async fn tcp_peer(s: S, name: &'static str, start_ms: u64, tag: u8, slow_reader:
         if !failed {
             let id = op_start(&s, name, "read", Some(cs));
             let mut b = [0u8; 4];
-            match st.read(&mut b).await {
-                Ok(n) => op_done(&s, id, format!("ok {n}")),
-                Err(e) => op_done(&s, id, errk(&e)),
+            // optionally the end of the stream is first seen through peek(): what peek reported
+            // stays true, the read that follows returns as well
+            let peeked = if PEEK_FIRST.with(|p| p.get()) { Some(st.peek(&mut b).await) } else { None };
+            match (peeked, st.read(&mut b).await) {
+                (Some(Err(e)), _) => op_done(&s, id, errk(&e)),
+                (_, Ok(n)) => op_done(&s, id, format!("ok {n}")),
+                (_, Err(e)) => op_done(&s, id, errk(&e)),
             }
         }
         drop(st);
@@ -710,6 +722,8 @@ pub fn scenario(ch: &mut Chooser, thorough: bool) -> Exec {
     let is_tcp = matches!(work, Work::TcpReading | Work::TcpNotReading | Work::TcpSlowAccept | Work::TcpVictimWrites);
     let readiness = matches!(work, Work::TcpNotReading | Work::TcpVictimDials) && ch.flag("peer_writes_with_writable_and_try_write");
     let reorder = work == Work::TcpNotReading && ch.flag("first_data_segment_delayed_so_later_ones_overtake_it");
+    let peek_first = work == Work::TcpReading && ch.flag("peers_peek_before_their_final_read");
+    PEEK_FIRST.with(|p| p.set(peek_first));
     let spawn_kind = if is_tcp { ch.choose("connection_handler(spawn_local|tokio::spawn|alternating)", 3) } else { 0 };
     let (crash_at, bounce_after, second, bounce_only) = match mode {
         0 => {
@@ -863,7 +877,7 @@ pub fn scenario(ch: &mut Chooser, thorough: bool) -> Exec {
     obs.push(format!("work={work:?} ops={:?}", run.st.borrow().ops.iter().map(|o| format!("{}:{}@{}={}", o.peer, o.op, o.started, o.result.as_deref().unwrap_or("pending"))).collect::<Vec<_>>()));
     if let Some(v) = violation.as_mut() {
         v.sig = format!("{}|{:?}", v.clause, work);
-        v.scenario = format!("c04 tier={} work={work:?} crash_at={crash_at:?} bounce_after={bounce_after:?} second={second:?} bounce_only={bounce_only:?} selection={sel} handler={spawn_kind} readiness={readiness} double_bounce={double_bounce} reorder={reorder}", if thorough { "thorough" } else { "quick" });
+        v.scenario = format!("c04 tier={} work={work:?} crash_at={crash_at:?} bounce_after={bounce_after:?} second={second:?} bounce_only={bounce_only:?} selection={sel} handler={spawn_kind} readiness={readiness} double_bounce={double_bounce} reorder={reorder} peek_first={peek_first}", if thorough { "thorough" } else { "quick" });
         v.actions = obs.clone();
     }
     Exec { outcome: Digest::of64(&obs), violation, features: feats }
